@@ -49,11 +49,12 @@ RULE = (
     'generic list code of gfpx.Polynomial instantiated at p = 2 next to BinaryPolynomial. '
     'Exhaustive: every polynomial of degree <= 3 incl. 0 (unary ops, shifts 0..3, evaluation at -2..p+1, '
     'indexing, int/list/tuple/str constructors, powmod with n in -3..6 and 13 moduli incl. None/0/constants/'
-    'reducible/irreducible); every ordered PAIR for p in {2,3} (degree <= 3); p in {5,7}: thorough tier every pair of '
-    'degree <= 2 (p = 5: <= 3), quick tier every pair of degree <= 1 plus seeded samples of 5000/7000 pairs of '
-    'degree <= 2 and 3000 pairs involving degree 3 (quick p = 7: unary ops on degree <= 2, powmod on degree <= 1 + 200 '
-    'sampled; p = 5: powmod on degree <= 2 + 200 sampled); ring laws on all triples of '
-    'degree <= 3 (p=2) / <= 2 (p=3) and random triples otherwise. Random: degrees -1..40 with shapes generic/'
+    'reducible/irreducible); every ordered PAIR for p = 2 (degree <= 3; p = 3: thorough tier); p in {5,7}: thorough tier every pair of '
+    'degree <= 2 (p = 5: <= 3), quick tier every pair of degree <= 1 plus seeded samples of 2500/3000 pairs of '
+    'degree <= 2 and 1500 pairs involving degree 3 (quick p = 3: all pairs of degree <= 2 + 2500 sampled pairs involving '
+    'degree 3; quick p = 5/7: unary ops on degree <= 2 / the first 147 polynomials, powmod on degree <= 2 / <= 1 + 200 '
+    'sampled); ring laws on all triples of '
+    'degree <= 3 (p=2) / <= 2 (p=3; quick: degree <= 1 + 3000 sampled) and random triples otherwise. Random: degrees -1..40 with shapes generic/'
     'equal operands/b divides a/common factor/constant/zero/monic and non-monic divisors. Every operation is '
     'reached through several entry points (operator, reflected operator with int/list/tuple/str operand, class '
     'method, static _method), rotating over the pairs (all entry points on the small domains). '
@@ -1226,7 +1227,7 @@ def run_jobs(ctx, jobs, modname, max_violations=3):
     for k, js in enumerate(jobs):
         js.update(mod=modname, pid=ctx.property_id, tier=ctx.tier, seed0=ctx.seed)
         js.setdefault('what', f"{js['kind']}[{js.get('dom', '')}]#{k}")
-    nproc = max(1, min(int(os.environ.get('VERIF_PROCS', '8')), (os.cpu_count() or 2), len(jobs)))
+    nproc = max(1, min(int(os.environ.get('VERIF_PROCS', '12')), (os.cpu_count() or 2), len(jobs)))
     batches = [[] for _ in range(nproc)]
     load = [0.0] * nproc
     for k in sorted(range(len(jobs)), key=lambda k: (-jobs[k].get('weight', 1), k)):   # longest first, least loaded
@@ -1321,15 +1322,28 @@ def build_jobs(ctx, nodriver=False):
         add_powmod(dname, ('range', 0, 16), 16, None)
         add_laws(dname, ('grid', 0, 16, 16), 4096)
     # p = 3: all pairs of degree <= 3; all entry points on degree <= 2 (thorough: everywhere)
-    for lo, hi in _chunks(0, 81, 6 if T else 3):
-        add_pairs('3', ('grid', lo, hi, 81), (hi - lo) * 81, None if T else 1)
+    if T:
+        for lo, hi in _chunks(0, 81, 6):
+            add_pairs('3', ('grid', lo, hi, 81), (hi - lo) * 81, None)
+    else:
+        s3 = _sample_pairs(ctx.subrng('pairs3', 3), 3, 2500)         # pairs involving degree 3
+        for lo, hi in _chunks(0, 2500, 3):
+            add_pairs('3', ('list', s3[lo:hi]), hi - lo, 1)
     if not T:
-        add_pairs('3', ('grid', 0, 27, 27), 729, None)
+        add_pairs('3', ('grid', 0, 9, 9), 81, None)          # all entry points on degree <= 1
+        add_pairs('3', ('grid', 0, 27, 27), 729, 3)          # three entry points (rotating) on degree <= 2
     add_unary('3', 0, 81, True, 3)
     for lo, hi in _chunks(0, 81, 2):
         add_powmod('3', ('range', lo, hi), hi - lo, None if T else 2)
-    for lo, hi in _chunks(0, 27, 4):
-        add_laws('3', ('grid', lo, hi, 27), (hi - lo) * 729)
+    if T:
+        for lo, hi in _chunks(0, 27, 4):
+            add_laws('3', ('grid', lo, hi, 27), (hi - lo) * 729)
+    else:
+        add_laws('3', ('grid', 0, 9, 9), 729)
+        r3 = ctx.subrng('laws', 3)
+        tr3 = [(r3.randrange(27), r3.randrange(27), r3.randrange(27)) for _ in range(3000)]
+        for lo, hi in _chunks(0, 3000, 3):
+            add_laws('3', ('list', tr3[lo:hi]), hi - lo)
     # p = 5, 7.  thorough: all pairs of degree <= 2 (p = 5: <= 3) + a big sample of pairs involving degree 3.
     # quick: all pairs of degree <= 1, a seeded sample of the pairs of degree <= 2 and of pairs involving degree 3
     # (the full sweep of the exhaustive domain is left to the thorough tier to keep quick within ~2 minutes on a
@@ -1344,19 +1358,20 @@ def build_jobs(ctx, nodriver=False):
             add_pairs(str(p), ('grid', 0, n1, n1), n1 * n1, 1, None)
             r2 = ctx.subrng('pairs2', p)
             n2 = p ** 3
-            cnt2 = 5000 if p == 5 else 7000
+            cnt2 = 2500 if p == 5 else 3000
             sample2 = [(r2.randrange(n2), r2.randrange(n2)) for _ in range(cnt2)]
             for lo, hi in _chunks(0, cnt2, 3):
                 add_pairs(str(p), ('list', sample2[lo:hi]), hi - lo, 1, None)
-        cnt = ctx.scale(3000, 250000 if p == 7 else 60000)
+        cnt = ctx.scale(1500, 250000 if p == 7 else 60000)
         sample = _sample_pairs(ctx.subrng('pairs3', p), p, cnt)
         for lo, hi in _chunks(0, cnt, max(1, cnt // 6000)):
             add_pairs(str(p), ('list', sample[lo:hi]), hi - lo, 1)
-        if T or p == 5:
+        if T:
             for lo, hi in _chunks(0, p ** 4, 2 if p == 5 else 6):
                 add_unary(str(p), lo, hi, lo == 0, p)
         else:
-            for lo, hi in _chunks(0, p ** 3, 2):          # quick, p = 7: every polynomial of degree <= 2
+            top = p ** 3 if p == 5 else p ** 2 * 3          # quick: degree <= 2 (p = 5) / the first 147 (p = 7)
+            for lo, hi in _chunks(0, top, 2):
                 add_unary(str(p), lo, hi, lo == 0, p)
         if T:
             for lo, hi in _chunks(0, p ** 4, 6 if p == 5 else 24):
